@@ -475,16 +475,19 @@ def cfgSepFracI : Cfg := ⟨featsRF, ⟨0xa0a0a000000005f000000020000000c⟩, fa
 def cfgSepIntI : Cfg := ⟨featsRF, ⟨0xa0a0a000000005f000000010000000c⟩, false⟩
 
 /-- finding (base prefix swallows a leading zero): `0`, `-0`, `0e5`, `0.` are rejected by a format that merely
-*allows* a base prefix ("a leading `0x` will be ignored, if present"; table: `1` valid) -/
+*allows* a base prefix ("a leading `0x` will be ignored, if present"; table: `1` valid).
+Stated for BOTH values of the switch `Model.prefixRepair`: the model accepts these inputs exactly when the repair
+`fixes/C12-base-prefix-swallows-leading-zero.diff` is modelled (with the switch on this is the regression theorem). -/
 theorem finding_prefix_zero :
-    (modelAccepts cfgPrefixD {} [48] = false ∧ grammarAccepts cfgPrefixD {} [48] = true) ∧
-    (modelAccepts cfgPrefixD {} [45, 48] = false ∧ grammarAccepts cfgPrefixD {} [45, 48] = true) ∧
-    (modelAccepts cfgPrefixD {} [48, 101, 53] = false ∧ grammarAccepts cfgPrefixD {} [48, 101, 53] = true) ∧
-    (modelAccepts cfgPrefixD {} [48, 46] = false ∧ grammarAccepts cfgPrefixD {} [48, 46] = true) := by decide
+    (modelAccepts cfgPrefixD {} [48] = prefixRepair ∧ grammarAccepts cfgPrefixD {} [48] = true) ∧
+    (modelAccepts cfgPrefixD {} [45, 48] = prefixRepair ∧ grammarAccepts cfgPrefixD {} [45, 48] = true) ∧
+    (modelAccepts cfgPrefixD {} [48, 101, 53] = prefixRepair ∧ grammarAccepts cfgPrefixD {} [48, 101, 53] = true) ∧
+    (modelAccepts cfgPrefixD {} [48, 46] = prefixRepair ∧ grammarAccepts cfgPrefixD {} [48, 46] = true) := by decide
 
-/-- finding (`no_float_leading_zeros` is switched off by the prefix code): `0012` accepted; table: `01` invalid -/
+/-- finding (`no_float_leading_zeros` is switched off by the prefix code): `0012` accepted; table: `01` invalid.
+Both values of `Model.prefixRepair`: rejected exactly when the repair is modelled (`is_prefix` only if the prefix byte follows). -/
 theorem finding_prefix_leading_zeros :
-    modelAccepts cfgPrefixDNolz {} [48, 48, 49, 50] = true ∧ grammarAccepts cfgPrefixDNolz {} [48, 48, 49, 50] = false := by
+    modelAccepts cfgPrefixDNolz {} [48, 48, 49, 50] = !prefixRepair ∧ grammarAccepts cfgPrefixDNolz {} [48, 48, 49, 50] = false := by
   decide
 
 /-- finding (empty input accepted when no digits are required; "empty strings are still invalid") -/
